@@ -242,6 +242,9 @@ func Val(typ string, nullPct int, reps bool) *rapid.Generator[script.Val] {
 		default:
 			panic("gen.Val: type " + typ)
 		}
+		if (typ == "date" || typ == "timestamp" || typ == "timestamptz") && rapid.IntRange(0, 2).Draw(t, "zoned?") == 0 {
+			v.Zone = rapid.SampledFrom([]int{7200, -18000, 45900, -43200, 50400, 1, -1, 19800}).Draw(t, "zone")
+		}
 		return v
 	})
 }
